@@ -70,4 +70,11 @@ ITEMS = [
          ],
          canaries=['C09:delivers_exactly_the_next_character_for_every_chunking',
                    'C10:end_of_input_only_when_nothing_is_left_or_an_error_is_stored']),
+    # ---- how the reader input is built: the decoder in front of ChunkedChars removes a leading byte order mark (C09) ----
+    dict(src=BI, path='fn buffered_input_from_reader_with_limit', id='buffered_input_from_reader_with_limit#decoder', props=['C09', 'C01'],
+         fragment=r'let decoder = DecodeReaderBytesBuilder::new\(\).*?\.build\(reader\);', fragment_flags='S',
+         wrapper='fn build_decoder_fragment(reader: RawReader) -> DecodeReaderBytes { {FRAG} decoder }',
+         ensures=[('C09:reader_input_loses_a_leading_byte_order_mark_like_str_and_slice_input', 'r.strips_utf8_bom()'),
+                  ('C09:reader_input_is_transcoded_from_the_encoding_its_byte_order_mark_announces', 'r.sniffs_encoding()')],
+         canaries=['C09:reader_input_loses_a_leading_byte_order_mark_like_str_and_slice_input']),
 ]
